@@ -31,6 +31,9 @@ impl PathAndQuery {
     pub uninterp spec fn path_of(s: Seq<char>) -> Seq<char>;
     #[verifier::external_body]
     pub fn path(&self) -> (r: &str) ensures r@ == Self::path_of(self@) { unimplemented!() }
+    // as_str() is the whole text (path and, if there is one, `?query`)
+    #[verifier::external_body]
+    pub fn as_str(&self) -> (r: &str) ensures r@ == self@ { unimplemented!() }
 }
 // R17: `pnq != "/"`
 #[verifier::external_body]
@@ -325,7 +328,7 @@ def build():
     u.raw(PREP)
     u._emit('impl GrpcConfig {'); u._open_header = 'impl GrpcConfig {'
     u.fn(G, 'prepare_request', within='impl GrpcConfig',
-         body_edits=[lambda t: t.sub_code('R17', r'format!\("\{\}\{\}", pnq\.path\(\), path\)', 'verif_join_path(pnq.path(), path)'),
+         body_edits=[lambda t: t.sub_code('R17', r'format!\("\{\}\{\}", ([^,]+), path\)', r'verif_join_path(\1, path)'),
                      lambda t: t.sub_code('R17', r'pnq != "/"', 'verif_pq_ne(pnq, "/")')],
          body_start='        proof { lemma_names_distinct(); }',
          ensures=[
